@@ -1117,8 +1117,54 @@ struct DriverT {
     }
   }
 
+  // a completely full inode_256 (fan-out exactly 256: its 8-bit child count wraps to 0), also below the root
+  // and above inner children, then clear() / destruction / draining, and the 255-children neighbour (seed c10d)
+  void gen_full256() {
+    const std::size_t len = kIsKv ? 2 + rng.below(5) : 8;
+    const std::size_t pos = rng.below(len - 1);
+    Bytes base(len);
+    for (auto& x : base) x = static_cast<std::uint8_t>(rng.below(256));
+    const bool two_below = rng.chance(40);     // some children of the full node are inode_4s with two leaves
+    const std::size_t skip = rng.chance(35) ? rng.below(256) : 256;   // 255 children instead of 256
+    std::vector<Bytes> keys;
+    for (std::size_t b = 0; b < 256; ++b) {
+      if (b == skip) continue;
+      Bytes k = base;
+      k[pos] = static_cast<std::uint8_t>(b);
+      keys.push_back(k);
+      if (two_below && b % 8 == 3) {
+        k[len - 1] = static_cast<std::uint8_t>(k[len - 1] + 1);
+        keys.push_back(k);
+      }
+    }
+    if (rng.chance(50)) {   // a sibling subtree above the full node
+      Bytes k = base;
+      k[0] = static_cast<std::uint8_t>(k[0] + 1);
+      if (pos > 0) keys.push_back(k);
+    }
+    for (std::size_t i = keys.size(); i > 1; --i) std::swap(keys[i - 1], keys[rng.below(i)]);
+    // no extras between the inserts: every event of the trace costs O(entries) in the trace specification
+    for (const auto& k : keys)
+      if (insert_allowed(k)) do_insert(k, rng.below(3));
+    do_scans(2);
+    const auto how = rng.below(3);
+    if (how == 0) {
+      do_clear();
+    } else if (how == 1) {
+      for (std::size_t i = 0; i < 3 && i < keys.size(); ++i) try_remove(keys[i]);
+      for (std::size_t i = 0; i < 3 && i < keys.size(); ++i) try_insert(keys[i]);
+      do_clear();
+    }   // how == 2: the full tree is destroyed by the next reset / drained by run_history
+    do_empty();
+    for (std::size_t i = 0; i < 4 && i < keys.size(); ++i) do_get(keys[i]);
+    if (how != 2) {
+      try_insert(keys[0]);
+      do_scans(1);
+    }
+  }
+
   void run_history(int which, long nops) {
-    static const char* names[] = {"dense", "sparse", "deep", "words", "walker", "clear", "tiny", "slots", "bytes", "splitcol"};
+    static const char* names[] = {"dense", "sparse", "deep", "words", "walker", "clear", "tiny", "slots", "bytes", "splitcol", "full256"};
     reset(names[which]);
     switch (which) {
       case 0: gen_dense(nops); break;
@@ -1130,6 +1176,7 @@ struct DriverT {
       case 7: gen_slots(); break;
       case 8: gen_bytes(); break;
       case 9: gen_splitcol(); break;
+      case 10: gen_full256(); break;
       default: gen_tiny(); break;
     }
     // final sweep: get of every key in the pool happened during mix; finish with a drain
@@ -1229,7 +1276,7 @@ int main(int argc, char** argv) {
       std::fclose(in);
     } else {
       for (long h = 0; h < histories; ++h) {
-        d.run_history(static_cast<int>(h % 10), nops);
+        d.run_history(static_cast<int>(h % 11), nops);
         if (faults) d.do_length_errors();
       }
     }
